@@ -15,6 +15,9 @@ from .report import AnalysisError
 ONE = ()
 
 
+PARANOID = {'on': False, 'trials': 2, 'seed': 20261003, 'checked': 0, 'skipped': 0, 'disagreements': []}
+
+
 class AlgebraError(Exception):
     pass
 
@@ -297,7 +300,17 @@ class Rat:
         return self.n.is_zero()
 
     def equals(self, o):
-        return (self - o).is_zero()
+        res = (self - o).is_zero()
+        if PARANOID['on']:
+            # thorough tier: every decision of the normaliser is re-derived by exact evaluation at random rational points
+            chk = random_identity_test(self, o, trials=PARANOID['trials'], seed=PARANOID['seed'] + PARANOID['checked'])
+            if chk is None:
+                PARANOID['skipped'] += 1
+            else:
+                PARANOID['checked'] += 1
+                if chk != res:
+                    PARANOID['disagreements'].append((self.canon()[:200], o.canon()[:200], res, chk))
+        return res
 
     def canon(self):
         if not self.d:
